@@ -25,7 +25,7 @@ func init() {
 		Builds:              []string{"default", "386"}, // the 386 build runs 1/12 of the random classes on a 32-bit target
 		Scale386:            12,
 		Parallel:            4, // cases are judged on 4 goroutines per shard: the library functions are stateless, shared state inside them shows up as wrong verdicts
-		Rule: "(curve, seed, path): curves secp256k1, NIST P-256, ed25519 and four pluggable curves (secp256k1/P-256 wrapped so that a quarter of all candidate I_L values are declared invalid (half of them with the sentinel wrapped by %w), on NewPrivateKey and Shift, private and public side; in a second mode a sixteenth return a permanent error); seeds of length 0..128; paths of length 0..8 over {0, 1, 2^31-1, 2^31, 2^31+1, 2^32-1, random hardened / non-hardened}. Each node (stepwise NewMasterKey/DeriveChild, DeriveKeyFromPath of every prefix, Public(), public-side child) is compared with the SLIP-0010 model: private key, chain code, serialized public key, parent fingerprint; undefined derivations must fail, permanent errors must be returned. validity: Curve.NewPrivateKey of the three built-in curves on 0, 1, 2, n-2..n+2, 2^256-1 and random candidates (refused with ErrInvalidKey exactly outside [1, n-1]; on ed25519 every 32-byte string is a key). deep: paths of 255, 256, 257, 300, 512 and 513 elements on the three built-in curves, derived node by node and through DeriveKeyFromPath, every node and (around depth 256 and 512) its public side compared with the model. " +
+		Rule: "(curve, seed, path): curves secp256k1, NIST P-256, ed25519 and four pluggable curves (secp256k1/P-256 wrapped so that a quarter of all candidate I_L values are declared invalid (half of them with the sentinel wrapped by %w), on NewPrivateKey and Shift, private and public side; in a second mode a sixteenth return a permanent error; in a third mode fifteen candidates in sixteen are invalid, so that runs of 8, 16, 32 and more consecutive retries occur in master-key generation and in child steps); seeds of length 0..128; paths of length 0..8 over {0, 1, 2^31-1, 2^31, 2^31+1, 2^32-1, random hardened / non-hardened}. Each node (stepwise NewMasterKey/DeriveChild, DeriveKeyFromPath of every prefix, Public(), public-side child) is compared with the SLIP-0010 model: private key, chain code, serialized public key, parent fingerprint; undefined derivations must fail, permanent errors must be returned. validity: Curve.NewPrivateKey of the three built-in curves on 0, 1, 2, n-2..n+2, 2^256-1 and random candidates (refused with ErrInvalidKey exactly outside [1, n-1]; on ed25519 every 32-byte string is a key). deep: paths of 255, 256, 257, 300, 512 and 513 elements on the three built-in curves, derived node by node and through DeriveKeyFromPath, every node and (around depth 256 and 512) its public side compared with the model. " +
 			"Non-trivial: distinct cases with path length >= 1.",
 		Assumptions: []string{"HMAC-SHA512, SHA-256 (standard library), RIPEMD-160 (x/crypto)", "the SLIP-0010 model in harness/oracle/slip10m over oracle/weier and oracle/ed (self-tested against the published SLIP-0010 vectors of all three curves incl. the P-256 retry vectors)"},
 		SelfTest:    slip10m.SelfTest,
@@ -46,6 +46,12 @@ var errPermanent = errors.New("harness: permanent curve error")
 
 func verdict(mode int, il []byte) slip10m.Verdict {
 	if len(il) != 32 {
+		return slip10m.Valid
+	}
+	if mode == 3 { // long retry runs: fifteen candidates in sixteen are invalid
+		if il[31]&15 != 7 {
+			return slip10m.Invalid
+		}
 		return slip10m.Valid
 	}
 	if il[31]&3 == 2 {
@@ -107,10 +113,10 @@ func (k *plugKey) Shift(buf []byte) (slip10.Key, error) {
 	return &plugKey{n, k.c}, nil
 }
 
-const nCurves = 7
+const nCurves = 9
 
 func curveName(id byte) string {
-	return []string{"secp256k1", "nist256p1", "ed25519", "plug(secp256k1,retry)", "plug(nist256p1,retry)", "plug(secp256k1,retry+permanent)", "plug(nist256p1,retry+permanent)"}[id]
+	return []string{"secp256k1", "nist256p1", "ed25519", "plug(secp256k1,retry)", "plug(nist256p1,retry)", "plug(secp256k1,retry+permanent)", "plug(nist256p1,retry+permanent)", "plug(secp256k1,15 of 16 candidates invalid)", "plug(nist256p1,15 of 16 candidates invalid)"}[id]
 }
 
 func curves(id byte) (slip10.Curve, *slip10m.Params) {
@@ -126,8 +132,11 @@ func curves(id byte) (slip10.Curve, *slip10m.Params) {
 	if id >= 5 {
 		mode = 2
 	}
+	if id >= 7 {
+		mode = 3
+	}
 	base, mp := elliptic.Secp256k1(), slip10m.Secp256k1
-	if id == 4 || id == 6 {
+	if id == 4 || id == 6 || id == 8 {
 		base, mp = elliptic.Nist256p1(), slip10m.Nist256p1
 	}
 	m := *mp
